@@ -30,9 +30,10 @@ class Split(Exception):
 
 
 class IntV:
-    __slots__ = ("w", "lin", "lo", "hi", "tz", "pred", "pbase")
+    __slots__ = ("w", "lin", "lo", "hi", "tz", "pred", "pbase", "mlin")
 
-    def __init__(self, w, lin, lo, hi, tz=0, pred=None, pbase=None):
+    def __init__(self, w, lin, lo, hi, tz=0, pred=None, pbase=None, mlin=None):
+        self.mlin = mlin      # value is congruent to this (unbounded) form modulo 2^w
         self.w = w
         self.lin = lin
         self.lo = lo
@@ -153,7 +154,7 @@ class State:
         self.env = {}
         self.bounds = {}      # sym -> (lo, hi)   integer symbols
         self.cons = {}        # normalized key -> (lo, hi) on the normalized form (Fractions or None)
-        self.conlin = {}
+        self.cmod = {}        # normalized key -> m : the normalized form is a multiple of m
         self.fb = {}          # float symbol -> (lo, hi, nan)
         self.block = None
         self.prev = None
@@ -174,7 +175,7 @@ class State:
         s.env = dict(self.env)
         s.bounds = dict(self.bounds)
         s.cons = dict(self.cons)
-        s.conlin = self.conlin if not self.conlin else dict(self.conlin)
+        s.cmod = self.cmod if not self.cmod else dict(self.cmod)
         s.fb = dict(self.fb)
         s.block = self.block
         s.prev = self.prev
@@ -210,6 +211,24 @@ class State:
             c = self.cons.get(nk)
             if c is not None:
                 clo, chi = c
+                m = self.cmod.get(nk)
+                if m is not None:
+                    # work on the normalized form: numerator = g * nform + off
+                    if g > 0:
+                        nlo = -((-(lo - off)) // g)
+                        nhi = (hi - off) // g
+                    else:
+                        nlo = -((-(hi - off)) // g)
+                        nhi = (lo - off) // g
+                    if clo is not None and clo > nlo:
+                        nlo = clo
+                    if chi is not None and chi < nhi:
+                        nhi = chi
+                    nlo = -((-nlo) // m) * m
+                    nhi = nhi // m * m
+                    if g > 0:
+                        return nlo * g + off, nhi * g + off
+                    return nhi * g + off, nlo * g + off
                 # numerator = g * nform + off
                 if g > 0:
                     a = None if clo is None else clo * g + off
@@ -255,8 +274,9 @@ class State:
         return lo, hi
 
     # ---------------------------------------------------------- refinement
-    def constrain(self, lin, lo, hi):
-        """require lo <= lin <= hi (None = unbounded); all symbols are integers"""
+    def constrain(self, lin, lo, hi, mod=None):
+        """require lo <= lin <= hi (None = unbounded); all symbols are integers.
+        mod: the (integer valued, d == 1, unit gcd) form is additionally a multiple of mod"""
         if lin.is_const():
             c = lin.c
             if (lo is not None and c < lo) or (hi is not None and c > hi):
@@ -290,6 +310,10 @@ class State:
         if flo is not None and fhi is not None and flo > fhi:
             raise Infeasible()
         self.cons[nk] = (flo, fhi)
+        if mod is not None and abs(g) == 1 and lin.d == 1 and lin.cn == 0:
+            if self.cmod is None or nk not in self.cmod:
+                self.cmod = dict(self.cmod)
+                self.cmod[nk] = mod
         self._propagate()
         a, z = self.rng_num(lin)
         if a > z:
